@@ -1,6 +1,6 @@
 //go:build verif
 
-//verif:bounds terminal step lemma: geometry (width, height, scrollback, tab width) from {1,2,3}x{1,2}x{0,1}x{0,2,129} (quick) or {1..4}x{1..3}x{0..2}x{0,1,3,128,255} (thorough); every cell of the terminal buffer (character, colours) arbitrary; cursor, viewport position and active/inactive state arbitrary (case split); one operation: WriteByte of an arbitrary byte, Write of two arbitrary bytes, SetCursorPosition with arbitrary 32-bit coordinates, SetState; AttachTo from an arbitrary previous attachment (C17) and on an active or inactive terminal over a console with arbitrary contents (C18)
+//verif:bounds terminal step lemma: geometry (width, height, scrollback, tab width) from {1,2,3}x{1,2}x{0,1}x{0,2,129} (quick) or {1..4}x{1..3}x{0..2}x{0,1,3,128,255} (thorough); every cell of the terminal buffer (character, colours) arbitrary; cursor, viewport position and active/inactive state arbitrary (case split); one operation: WriteByte of an arbitrary byte, Write of two arbitrary bytes, SetCursorPosition with arbitrary 32-bit coordinates, SetState; AttachTo from an arbitrary previous attachment (C17) and on an active or inactive terminal over a console with arbitrary contents (C18); vt_fb_sync (C18): the same step with the real VesaFbConsole at 8 bpp attached - grid {1,2}x{1,2} cells, scrollback {0,1}, tab {0,2} in both tiers, one logo row, one remainder pixel column, 11 padding bytes per row, every framebuffer byte arbitrary subject to Sync, synthetic 8x1 font of 256 glyphs (blank space, the others pairwise distinct); operations WriteByte of an arbitrary byte, SetCursorPosition, SetState
 //verif:assumes Inv(VT): 1 <= cursorX <= width, 1 <= cursorY <= height, viewportY <= scrollback, dataOffset consistent with cursor and viewport, rows below the viewport still blank, current colours = default colours (the VT has no colour API); for C18 additionally Sync: an active terminal's console shows exactly the viewport
 package tty
 
@@ -415,10 +415,12 @@ func vfFbFont() *font.Font {
 //
 //verif:split 6
 func Verif_C18_vt_fb_sync() {
-	w := vfGeom([]uint32{1, 2}, []uint32{1, 2, 3}, "width")
-	h := vfGeom([]uint32{1, 2}, []uint32{1, 2, 3}, "height")
-	s := vfGeom([]uint32{0, 1}, []uint32{0, 1, 2}, "scrollback")
-	tab := vfGeom([]uint32{0, 2}, []uint32{0, 1, 3}, "tab")
+	// (both tiers use the same geometries: a run with grids up to 3x3 did not finish inside the session that added this
+	// harness, and only bounds that ran clean on the unchanged tree are registered)
+	w := vfGeom([]uint32{1, 2}, []uint32{1, 2}, "width")
+	h := vfGeom([]uint32{1, 2}, []uint32{1, 2}, "height")
+	s := vfGeom([]uint32{0, 1}, []uint32{0, 1}, "scrollback")
+	tab := vfGeom([]uint32{0, 2}, []uint32{0, 2}, "tab")
 	const gw, offY, pad = 8, 1, 11
 	width, height := w*gw+1, offY+h // (glyphs are one pixel high, so there is no remainder row)
 	pitch := width + pad
